@@ -40,6 +40,75 @@ impl Observer for StartCounter {
     }
 }
 
+/// Data-source wrapper whose starting-vertex iterator reports an EXACT `size_hint()` (like a `Vec` or a
+/// range mapped through a fetch function would) while still producing each vertex only inside `next()`.
+/// Knowing how many items there will be is not the same as having them: the engine must stay lazy.
+#[derive(Clone)]
+pub struct SizedStarts<A> {
+    pub inner: A,
+    pub ds: Rc<crate::data::Dataset>,
+}
+
+struct SizedIter<I> {
+    inner: I,
+    remaining: usize,
+}
+
+impl<I: Iterator> Iterator for SizedIter<I> {
+    type Item = I::Item;
+    fn next(&mut self) -> Option<I::Item> {
+        let x = self.inner.next();
+        if x.is_some() {
+            self.remaining = self.remaining.saturating_sub(1);
+        }
+        x
+    }
+    fn size_hint(&self) -> (usize, Option<usize>) {
+        (self.remaining, Some(self.remaining))
+    }
+}
+
+impl<A: trustfall_core::interpreter::Adapter<'static> + 'static> trustfall_core::interpreter::Adapter<'static> for SizedStarts<A> {
+    type Vertex = A::Vertex;
+    fn resolve_starting_vertices(
+        &self,
+        edge_name: &Arc<str>,
+        parameters: &trustfall_core::ir::EdgeParameters,
+        resolve_info: &trustfall_core::interpreter::ResolveInfo,
+    ) -> trustfall_core::interpreter::VertexIterator<'static, Self::Vertex> {
+        let n = self.ds.starts(edge_name, &params_to_vals(parameters.iter())).len();
+        Box::new(SizedIter { inner: self.inner.resolve_starting_vertices(edge_name, parameters, resolve_info), remaining: n })
+    }
+    fn resolve_property<V: trustfall_core::interpreter::AsVertex<Self::Vertex> + 'static>(
+        &self,
+        contexts: trustfall_core::interpreter::ContextIterator<'static, V>,
+        type_name: &Arc<str>,
+        property_name: &Arc<str>,
+        resolve_info: &trustfall_core::interpreter::ResolveInfo,
+    ) -> trustfall_core::interpreter::ContextOutcomeIterator<'static, V, trustfall_core::ir::FieldValue> {
+        self.inner.resolve_property(contexts, type_name, property_name, resolve_info)
+    }
+    fn resolve_neighbors<V: trustfall_core::interpreter::AsVertex<Self::Vertex> + 'static>(
+        &self,
+        contexts: trustfall_core::interpreter::ContextIterator<'static, V>,
+        type_name: &Arc<str>,
+        edge_name: &Arc<str>,
+        parameters: &trustfall_core::ir::EdgeParameters,
+        resolve_info: &trustfall_core::interpreter::ResolveEdgeInfo,
+    ) -> trustfall_core::interpreter::ContextOutcomeIterator<'static, V, trustfall_core::interpreter::VertexIterator<'static, Self::Vertex>> {
+        self.inner.resolve_neighbors(contexts, type_name, edge_name, parameters, resolve_info)
+    }
+    fn resolve_coercion<V: trustfall_core::interpreter::AsVertex<Self::Vertex> + 'static>(
+        &self,
+        contexts: trustfall_core::interpreter::ContextIterator<'static, V>,
+        type_name: &Arc<str>,
+        coerce_to_type: &Arc<str>,
+        resolve_info: &trustfall_core::interpreter::ResolveInfo,
+    ) -> trustfall_core::interpreter::ContextOutcomeIterator<'static, V, bool> {
+        self.inner.resolve_coercion(contexts, type_name, coerce_to_type, resolve_info)
+    }
+}
+
 pub struct Outcome {
     pub err: Option<(String, String)>,
     pub prefixes_checked: u64,
@@ -60,7 +129,9 @@ pub fn check_ctx(ctx: &CaseCtx, stop_after: Option<usize>) -> Outcome {
         .map(|s| ctx.ds.vertices[*s].props.get("id").map(Val::from_fv).unwrap_or(Val::Null))
         .collect();
     let counter = Rc::new(RefCell::new(StartCounter::default()));
-    let adapter = Arc::new(Observed::new(GraphAdapter::new(ctx.model.clone(), ctx.ds.clone()), counter.clone()));
+    // the counting observer sits directly on the data source; around it, a wrapper that makes the start
+    // iterator report an exact size (a no-op for an engine that simply pulls on demand)
+    let adapter = Arc::new(SizedStarts { inner: Observed::new(GraphAdapter::new(ctx.model.clone(), ctx.ds.clone()), counter.clone()), ds: ctx.ds.clone() });
     let eargs = to_engine_args(&ctx.args);
     let compiled = ctx.compiled.clone();
     let res = catch(|| {
